@@ -8,6 +8,8 @@ from __future__ import annotations
 
 import itertools
 
+from fractions import Fraction
+
 import numpy as np
 
 from .. import bd, symc
@@ -288,6 +290,9 @@ def c13_sympy(cfg):
     elif kind == "permute":
         H1 = H2.subs({x: y, y: x}, simultaneous=True)
         out1 = block_diagonalize(H1, subspace_indices=idx, symbols=[x, y], hermitian=herm)
+    elif kind == "symbol_order":
+        # the same Hamiltonian with the perturbative symbols listed in the other (non-alphabetical) order: only the order indices swap
+        out1 = block_diagonalize(H2, subspace_indices=idx, symbols=[y, x], hermitian=herm)
     else:
         raise KeyError(kind)
     from pymablock.series import one, zero
@@ -675,6 +680,100 @@ def c12a(cfg):
     return rec
 
 
+def c12_lazy_formats(cfg):
+    """Call log of a lazily defined *unblocked* Hamiltonian series (BlockSeries of shape (), full matrices) through the other
+    public ways of designating subspaces: subspace_indices, complete eigenvectors, implicit mode (incomplete eigenvectors, real
+    sparse LU), an H_0 with an exactly vanishing block.  Concrete by nature (the log is a set of indices, not a value):
+    exhaustive over series x blocks x orders of the box, fresh computation per request."""
+    import itertools as it
+
+    from pymablock import block_diagonalize
+    from pymablock.series import BlockSeries
+
+    rec = Rec("C12", cfg)
+    mode = cfg["mode"]
+    E = [float(Fraction(x)) for x in cfg["spectrum"]]
+    N = len(E)
+    npar, mo, tmax = cfg["nparams"], cfg["max_order"], cfg["term_order"]
+    rng = np.random.default_rng(5)
+    zo = (0,) * npar
+    terms = {}
+    for o in bd.orders_upto(npar, tmax):
+        if sum(o) == 0:
+            continue
+        M = rng.integers(-4, 5, size=(N, N)) / 2.0
+        if cfg.get("complex"):
+            M = M + 1j * rng.integers(-4, 5, size=(N, N)) / 2.0
+        terms[o] = (M + M.conj().T) / 2 if cfg.get("hermitian", True) else M
+    H0 = np.diag(E)
+    if cfg.get("sparse"):
+        from scipy import sparse
+
+        H0 = sparse.csr_array(H0)
+        terms = {o: sparse.csr_array(t) for o, t in terms.items()}
+    sizes = cfg["sizes"]
+    off = np.cumsum([0] + list(sizes))
+    nb = len(sizes)
+
+    def build():
+        log = []
+
+        def Heval(*order):
+            log.append(tuple(order))
+            if tuple(order) == zo:
+                return H0
+            return terms[tuple(order)]
+
+        H = BlockSeries(eval=Heval, shape=(), n_infinite=npar, name="H")
+        kw = dict(hermitian=cfg.get("hermitian", True))
+        eye = np.eye(N)
+        if mode == "indices":
+            kw["subspace_indices"] = [b for b, sz in enumerate(sizes) for _ in range(sz)]
+        elif mode == "eigenvectors":
+            kw["subspace_eigenvectors"] = [eye[:, off[b] : off[b + 1]] for b in range(nb)]
+        elif mode == "implicit":
+            kw["subspace_eigenvectors"] = [eye[:, off[b] : off[b + 1]] for b in range(nb - 1)]
+        else:
+            raise KeyError(mode)
+        if cfg.get("fd") is not None:
+            kw["fully_diagonalize"] = cfg["fd"]
+        out = block_diagonalize(H, **kw)
+        return out, log
+
+    sig = f"lazy-formats:{mode}:npar={npar}"
+    req = list(bd.orders_upto(npar, mo))
+    n_req = 0
+    problem = None
+    for w in range(3):
+        for n in req:
+            for (bi, bj) in it.product(range(nb), repeat=2):
+                series, log = build()
+                bad_def = [c for c in log if c != zo]
+                series[w][(bi, bj, *n)]
+                n_req += 1
+                bad_cone = [c for c in log if not all(a <= b for a, b in zip(c, n))]
+                dup = len(log) - len(set(log))
+                if bad_def:
+                    problem = ("definition", dict(evaluated_at_definition=[list(c) for c in bad_def[:5]], config=cfg))
+                elif bad_cone:
+                    problem = ("cone", dict(request=[w, bi, bj, *n], outside_cone=[list(c) for c in bad_cone[:5]]))
+                elif dup:
+                    problem = ("repeat", dict(request=[w, bi, bj, *n], repeated=dup))
+                if problem:
+                    break
+            if problem:
+                break
+        if problem:
+            break
+    if problem:
+        rec.direct_violation(f"calllog of unblocked lazy series ({mode})", f"{sig}:calllog-{problem[0]}", problem[1], reproduced=True)
+    else:
+        rec.discharged(f"calllog of unblocked lazy series ({mode}): {n_req} fresh requests, definition evaluates zeroth order only, cone and at-most-once hold", "confirmed")
+    rec.nontrivial = n_req > 0
+    rec.sample = {"config": cfg, "requests": n_req}
+    return rec
+
+
 # ------------------------------------------------------------------------------------------------
 # configuration sets
 
@@ -716,7 +815,7 @@ def configs_c13(tier):
     jobs = [("vf.props.relations", "c13", c) for c in cfgs]
     for herm in (True, False):
         for sizes in ([1, 1], [1, 2]):
-            for rel in ("merge", "permute"):
+            for rel in ("merge", "permute", "symbol_order"):
                 jobs.append(("vf.props.relations", "c13_sympy", dict(sympy_format=True, hermitian=herm, sizes=sizes, spectrum=RAT_SPECTRA[sum(sizes)], relation=rel, max_order=3)))
     return jobs
 
@@ -803,6 +902,21 @@ def configs_c12a(tier):
     cfgs.append(dict(carrier="A", hermitian=True, sizes=[2, 1], spectrum=["0", "2", "1"], nparams=1, term_order=4, max_order=3, fd=[0]))
     cfgs.append(dict(carrier="A", hermitian=True, sizes=[3], spectrum=["0", "1", "2"], nparams=2, term_order=2, max_order=2,
                      fd={"0": [[0, 1, 0], [1, 0, 0], [0, 0, 0]]}))
+    # an H_0 block that vanishes exactly (library's own solver; passed as the `zero` sentinel / 0-d eigenvalue array)
+    cfgs.append(dict(carrier="A", hermitian=True, sizes=[2, 2], spectrum=["0", "0", "1", "2"], nparams=1, term_order=3, max_order=2))
+    cfgs.append(dict(carrier="A", hermitian=True, sizes=[2, 1], spectrum=["0", "0", "2"], nparams=2, term_order=2, max_order=2, fd=[0]))
     if tier == "thorough":
         cfgs = [dict(c, schedules=8) for c in cfgs]
-    return [("vf.props.relations", "c12a", c) for c in cfgs]
+    jobs = [("vf.props.relations", "c12a", c) for c in cfgs]
+    lazy = []
+    for mode in ("indices", "eigenvectors", "implicit"):
+        for npar in (1, 2):
+            lazy.append(dict(_job="lazy_formats", mode=mode, sizes=[2, 2], spectrum=["0", "2", "1", "4"] if mode != "implicit" else ["0", "2", "5", "9"], nparams=npar,
+                             term_order=3 if npar == 1 else 2, max_order=2, hermitian=True))
+        lazy.append(dict(_job="lazy_formats", mode=mode, sizes=[2, 2], spectrum=["0", "0", "1", "2"], nparams=1, term_order=3, max_order=2, hermitian=True))
+        lazy.append(dict(_job="lazy_formats", mode=mode, sizes=[2, 3], spectrum=["0", "2", "5", "9", "14"], nparams=1, term_order=3, max_order=2, hermitian=False, complex=True))
+    lazy.append(dict(_job="lazy_formats", mode="implicit", sizes=[2, 4], spectrum=["0", "2", "5", "9", "14", "20"], nparams=2, term_order=2, max_order=2, hermitian=True, sparse=True))
+    lazy.append(dict(_job="lazy_formats", mode="implicit", sizes=[1, 1, 3], spectrum=["0", "2", "5", "9", "14"], nparams=1, term_order=3, max_order=3 if tier == "thorough" else 2, hermitian=True))
+    lazy.append(dict(_job="lazy_formats", mode="indices", sizes=[2, 1], spectrum=["0", "1", "3"], nparams=1, term_order=3, max_order=2, hermitian=True, fd=[0]))
+    jobs += [("vf.props.relations", "c12_lazy_formats", c) for c in lazy]
+    return jobs
